@@ -458,6 +458,34 @@ func (c *mevalCtx) eval(e ast.Expr) mval {
 					return mval{t: "bool", b: (lb == rb) == (x.Op == token.EQL)}
 				}
 			}
+			// an operand compared with the zero value a failed comma-ok assertion left behind: the answer
+			// depends on the operand's value (except where no string is below "")
+			if (l.t == "opnd" && r.t == "zero") || (l.t == "zero" && r.t == "opnd") {
+				op := x.Op
+				side := l.side
+				if l.t == "zero" { // mirror so that the zero is on the right
+					side = r.side
+					switch op {
+					case token.LSS:
+						op = token.GTR
+					case token.GTR:
+						op = token.LSS
+					case token.LEQ:
+						op = token.GEQ
+					case token.GEQ:
+						op = token.LEQ
+					}
+				}
+				if c.kindOf(side) == okStr {
+					switch op {
+					case token.LSS:
+						return mval{t: "bool", b: false}
+					case token.GEQ:
+						return mval{t: "bool", b: true}
+					}
+				}
+				return mval{t: "varies"}
+			}
 			// typed operand comparison: both sides refer to the two operands (possibly converted)
 			if l.t == "opnd" && r.t == "opnd" && l.side != r.side {
 				kl, kr := c.kindOf(l.side), c.kindOf(r.side)
@@ -601,6 +629,7 @@ func ruleC12(prog *Program, rep *Report) {
 	ruleTruthMatrix(prog, rep)
 	ruleRadix(prog, rep)
 	rulePresenceByNil(prog, rep) // a null member must reach the operators as null, not as Nothing
+	rulePrecAgree(prog, rep)      // "parentheses combine exactly as the script prints": parser and printer use one precedence relation
 	ruleDivGuard(prog, rep, []string{"jp:script.go"}, nil, 5)
 }
 
@@ -813,6 +842,8 @@ func ruleTruthMatrix(prog *Program, rep *Report) {
 						rep.Violate(Finding{Rule: "M-truth", Key: key + ":panic", Pos: prog.Pos(cc.Pos()), Msg: desc + " panics: " + ctx.panicked})
 					case len(ctx.undec) > 0:
 						rep.Errorf("M-truth undecided for %s: %s", desc, ctx.undec[0])
+					case ctx.result != nil && ctx.result.t == "varies":
+						rep.Violate(Finding{Rule: "M-truth", Key: key + ":value-dependent", Pos: prog.Pos(cc.Pos()), Msg: fmt.Sprintf("%s depends on the operand's value (it is compared with the zero value a failed type assertion left behind), the documented semantics give %v for every value", desc, want)})
 					case ctx.result == nil || ctx.result.t != "bool":
 						got := "no boolean result"
 						if ctx.result != nil {
